@@ -163,6 +163,8 @@ func (r *structResult) verdictFor(prop string, p *pg.Prog) hx.Verdict {
 
 type progMeta struct {
 	Prog pg.Prog `json:"prog"`
+	// AllowNil: see pg.DriverMethod.AllowNil
+	AllowNil bool `json:"allow_nil,omitempty"`
 }
 
 func progCase(p *pg.Prog, files hx.Files, kind string) *hx.Case {
